@@ -15,6 +15,7 @@ import RosuModel.Lemmas.Digits
 import RosuModel.Lemmas.UtfSpec
 import RosuModel.Props.C05
 import RosuModel.Props.C11
+import RosuModel.Model.Encode
 namespace Rosu
 namespace EncodeLines
 open Rosu C05 C11
@@ -334,6 +335,47 @@ theorem recordLine_kvl (c : Char) (k v : Str) (hc : isAlnum c = true) (hv : trim
   rw [trimEnd_kvl _ _ hv]
   exact recordLine_of_alnum c _ hc
 
+/-! ### `//`-free and trimmed lines -/
+
+theorem startsWith_ds_hasDS (s : Str) (h : startsWith s (str "//") = true) : hasDS s = true := by
+  match s with
+  | [] => have e : str "//" = ['/', '/'] := rfl; rw [e] at h; simp [startsWith] at h
+  | [a] => have e : str "//" = ['/', '/'] := rfl; rw [e] at h; simp [startsWith] at h
+  | a :: b :: rest =>
+    have e : str "//" = ['/', '/'] := rfl
+    rw [e] at h
+    simp only [startsWith, Bool.and_eq_true, beq_iff_eq] at h
+    simp [hasDS, h.1, h.2.1]
+
+/-- a line that ends in a character other than `]`, does not start with white space and contains no `//`
+is a record line. -/
+theorem recordLine_of_last (l : Str) (x : Char) (hx : l.getLast? = some x) (hne : x ≠ ']')
+    (hts : trimStart l = l) (hds : hasDS l = false) : RecordLine l := by
+  refine ⟨not_header_of_last l x hx hne, ?_⟩
+  unfold shouldSkipLine
+  rw [hts]
+  have h1 : l.isEmpty = false := by cases l <;> simp_all
+  have h2 : startsWith l (str "//") = false := by
+    cases h : startsWith l (str "//") with
+    | false => rfl
+    | true => rw [startsWith_ds_hasDS l h] at hds; cases hds
+  simp [h1, h2]
+
+/-- what `KeyValue::parse` sees in a comment-stripped, end-trimmed `key: value` line without `//`. -/
+theorem kvSplit_trimComment_kvl (key v : Str) (hk : ':' ∉ key) (hkt : trim key = key) (hv : trim v = v)
+    (hdk : hasDS key = false) (hdv : hasDS v = false) :
+    kvSplit (trimComment (trimEnd (kvl key v))) = (key, v) := by
+  have hds : hasDS (trimEnd (kvl key v)) = false := by
+    rw [trimEnd_kvl key v hv]
+    apply hasDS_append_sep key ':' _ hdk (by decide)
+    cases v with
+    | nil => rfl
+    | cons c r =>
+      simp only [List.isEmpty_cons, Bool.false_eq_true, if_false]
+      rw [hasDS_cons_of_ne ' ' _ (by decide)]
+      exact hdv
+  rw [trimComment_of_not_hasDS _ hds, trimEnd_idem, kvSplit_trimEnd_kvl key v hk hkt hv]
+
 theorem blank_skipped : shouldSkipLine [] = true := rfl
 
 example : RecordLine (str "Title:") ∧ RecordLine (str "0,0,\"bg.png\",0,0") ∧ RecordLine (str "-12,5,7,1,0,0:0:0:0:") :=
@@ -419,6 +461,13 @@ theorem runSection_optLine (f : σ → Str → σ × Bool) (st : σ) (c : Bool) 
 theorem accepts_optLine (f : σ → Str → σ × Bool) (st : σ) (c : Bool) (l : Str) :
     Accepts f st (optLine c l) ↔ (c = true → (f st l).2 = true) := by
   cases c <;> simp [optLine, Accepts]
+theorem ite_isEmpty (b : Bool) (x : Str) : (if b = true then [] else x) = (if (!b) = true then x else []) := by
+  cases b <;> rfl
+
+/-- the encoder's `"{key}: {value}\n"`. -/
+theorem kvLine_eq (key : String) (v : Str) : Encode.kvLine key v = kvl (str key) v ++ nl := by
+  simp [Encode.kvLine, kvl, str, Encode.nl, nl]
+
 theorem mem_optLine {c : Bool} {l x : Str} (h : x ∈ optLine c l) : c = true ∧ x = l := by
   cases c <;> simp [optLine] at h ⊢; exact h
 
